@@ -123,9 +123,11 @@ def rule_cas_shape(fx, col):
             why.append('value returned at %s is produced by %s, not by the compared load' % (b.loc(bb), 'a second load' if rv['k'] == 'call' else rv['k']))
     col.add('CAS-SHAPE', fn + '|returns the compared value', good, '; '.join(why) or '%d return(s), each hands back the protection whose pointer decided the verdict' % len(rets))
     # success: into_ptr(new), then release of the duplicate after wait_for_readers (PAY-BEFORE-RELEASE)
-    ip = [(bb, t) for bb, t in b.calls(include_cleanup=False) if (t['callee'].get('trait') or '').endswith('ref_cnt::RefCnt') and U.callee_name(t) == 'into_ptr']
+    # the local handle is given up (mem::forget(new); BYPASS judges the spelling) exactly on the success outcome
+    ip = [(bb, t) for bb, t in b.calls(include_cleanup=False) if ((t['callee'].get('trait') or '').endswith('ref_cnt::RefCnt') and U.callee_name(t) == 'into_ptr')
+          or (U.callee_name(t) == 'forget' and t['callee'].get('path', '').endswith('mem::forget'))]
     ok = len(ip) == 1 and _on_cas_success(b, c, ip[0][0]) and b.origins(ip[0][1]['args'][0]) == {('arg', 4)}
-    col.add('CAS-SHAPE', fn + '|new forgotten only on success', ok, 'T::into_ptr(new) runs exactly on the success outcome (on failure `new` is dropped by Rust)')
+    col.add('CAS-SHAPE', fn + '|new forgotten only on success', ok, '`new` is forgotten exactly on the success outcome (on failure it is dropped by Rust)')
     # `current` stays alive until the verdict is final
     early = []
     for bb, t in b.drops(include_cleanup=False):
